@@ -1,5 +1,6 @@
 """C05 The function is only evaluated where the chosen method promises."""
 from ..dv import NONZERO_STEPS
+from ..stages import estimates
 from fractions import Fraction as Fr
 
 from ..srcmodel import AnalysisError
@@ -210,7 +211,7 @@ def evalsites(ctx):
             obj.attrs['fun'] = traced
             label = '%s/%s/n=%s/full_output=%s' % (cls, method, n, full_output)
             try:
-                I.getattr(obj, '_derivative')(x, (), {})
+                estimates(I, obj, x)
             except AnalysisError as exc:
                 rep.undecided('R-EVALSITES', 'core.%s._derivative' % cls, exc, label)
                 continue
@@ -295,10 +296,10 @@ def after_setter(ctx):
             gen = P.sym_generator('Min')
             try:
                 obj, x = P.build(cls, m1, None if cls == 'Hessian' else 2, n=(1 if cls == 'Derivative' else None), step=gen, dim=dim)
-                I.getattr(obj, '_derivative')(x, (), {})
+                estimates(I, obj, x)
                 I.setattr(obj, 'method', m2)
                 del P.calls[:]
-                I.getattr(obj, '_derivative')(x, (), {})
+                estimates(I, obj, x)
             except InterpRaise as exc:
                 rep.violation('R-ADMISSIBLE-SETTER', 'core.%s.method (setter)' % cls, core_mod.relpath,
                               {'raises': exc.exc_name, 'message': exc.msg[:100]}, 'the call succeeds', '%s/%s->%s' % (cls, m1, m2),
